@@ -269,6 +269,31 @@ def rule_who(ck):
             o.fail('region.%s is called with (%s, %s); the region expects (longitudes, latitudes)' % (meth, u(c.args[0]), u(c.args[1])))
 
 
+def rule_observer_kernel(ck):
+    """D1.kernel: the two region-side observers bin both coordinates through the region's coordinate binner (`_bin_coordinates`, i.e.
+    bin1d_vec with the closed last cell) and through nothing else: a sibling lookup on the edge arrays (numpy.digitize / searchsorted /
+    histogram) has no closing edge - xs / ys hold lower edges only - and no round-off tolerance, so it draws another partition than the
+    index lookup does."""
+    P = ck.prog
+    ck.clause('D1')
+    wrappers = {q for q in ('csep.core.regions._bin_coordinates',) if q in P.funcs}
+    for q in (G + 'get_index_of', G + 'get_masked'):
+        f = P.func(q)
+        o = ck.ob('C01-D1.kernel', f, 'both coordinates binned by the coordinate binner', f.node)
+        calls = [c for c in all_nodes(f) if isinstance(c, ast.Call) and (callee(P, f, c) in wrappers or callee(P, f, c) == BIN)]
+        sib = [c for c in all_nodes(f) if isinstance(c, ast.Call) and (callee(P, f, c) or '') in (
+            'numpy.digitize', 'numpy.searchsorted', 'numpy.histogram', 'numpy.histogram2d', 'numpy.histogramdd', 'bisect.bisect', 'bisect.bisect_left',
+            'bisect.bisect_right') or (isinstance(c, ast.Call) and isinstance(c.func, ast.Attribute) and c.func.attr == 'searchsorted')]
+        if sib:
+            o.fail('%s locates points with `%s`: a second binning rule beside bin1d_vec - the edge arrays hold the lower cell edges only, so the '
+                   'last column / row has no upper end (a point east or north of the bounding box is "inside"), and points within round-off '
+                   'of an edge go to another cell than get_index_of / the counts put them in' % (f.short, u(sib[0])[:70]))
+        elif len(calls) < 2:
+            o.fail('%s does not bin longitudes and latitudes through the coordinate binner (%d call(s) found)' % (f.short, len(calls)))
+        else:
+            o.ok('%d calls of the coordinate binner' % len(calls))
+
+
 def rule_given_region(ck):
     """D2.given: a region handed to filter_spatial is the region that is asked: the only condition on `self.region = region` is that a
     region was given.  An equality test against the region already bound (`region != self.region`) lets an "equal" region - same
@@ -707,5 +732,5 @@ def rule_precision(ck):
     rule_double_precision(ck, 'C01-D1.double', modules=('csep.core.regions', 'csep.utils.calc'), what='cell origins, edges and coordinates')
 
 
-RULES = [rule_partition, rule_who, rule_given_region, rule_raw_coordinates, rule_sentinel, rule_mask_polarity, rule_midpoints, rule_lattice_step, rule_single_edge,
+RULES = [rule_partition, rule_observer_kernel, rule_who, rule_given_region, rule_raw_coordinates, rule_sentinel, rule_mask_polarity, rule_midpoints, rule_lattice_step, rule_single_edge,
          rule_kernel_shared, rule_counts_shared, rule_precision]
